@@ -15,7 +15,7 @@ while i<len(a):
 p='/verif/harness/registry.json'
 r=json.load(open(p))
 hs=r[prop]['harnesses']
-hs[:]=[x for x in hs if not (x['pkg']==pkg and x['func']==fn)]
+hs[:]=[x for x in hs if not (x["pkg"]==pkg and x["func"]==fn and x["tier"]==tier)]
 # quick before thorough
 idx=len(hs)
 if tier=='quick':
